@@ -26,6 +26,9 @@ type Layout struct {
 	Big       bool  // first section is 40000 bytes instead of its RawSize
 	NumRva    int   // NumberOfRvaAndSizes (0 = 16); at least 5
 	Symbols   int   // number of COFF symbols placed after the last section / trailing data (0 = none)
+	// HdrOver raises the SizeOfHeaders FIELD by that many bytes without moving anything: the first
+	// section in the file then begins inside SizeOfHeaders (not well-formed; tolerated by refpe).
+	HdrOver int
 }
 
 func pat(i int) byte { return byte(i*131+17) | 1 }
@@ -129,7 +132,7 @@ func Build(l Layout) []byte {
 	binary.LittleEndian.PutUint16(b[c+18:], 0x2022)
 	o := optOff
 	binary.LittleEndian.PutUint16(b[o:], magic)
-	binary.LittleEndian.PutUint32(b[o+60:], uint32(sizeOfHeaders))
+	binary.LittleEndian.PutUint32(b[o+60:], uint32(sizeOfHeaders+l.HdrOver))
 	binary.LittleEndian.PutUint32(b[o+ddOff-4:], uint32(numRva)) // NumberOfRvaAndSizes
 	// data directories: keep the pattern except entry 4
 	binary.LittleEndian.PutUint32(b[o+ddOff+32:], uint32(certOff))
